@@ -310,5 +310,14 @@ func (p *Program) anyWFDef() string {
 	for _, t := range p.ptrTags {
 		ds = append(ds, eq("(a.tag x)", num(int64(t))))
 	}
-	return "(define-fun is_ptr_tag ((x Any)) Bool " + or(ds...) + ")\n(define-fun is_wf_any ((x Any)) Bool (and (<= 0 (a.tag x)) (=> (= (a.tag x) 0) (= x nil_any)) (=> (is_ptr_tag x) (< 0 (a.i x)))))\n"
+	// integer payloads lie in the range of their dynamic type
+	var rs []string
+	for _, k := range []types.BasicKind{types.Int, types.Int8, types.Int16, types.Int32, types.Int64, types.Uint, types.Uint8, types.Uint16, types.Uint32, types.Uint64} {
+		t := types.Typ[k]
+		rs = append(rs, implies(eq("(a.tag x)", num(int64(p.tagOf(t)))), inRangeTerm(t, "(a.i x)")))
+	}
+	isInt := and(app("<=", num(int64(p.tagOf(types.Typ[types.Int]))), "(a.tag x)"), app("<=", "(a.tag x)", num(int64(p.tagOf(types.Typ[types.Uint64])))))
+	return "(define-fun is_ptr_tag ((x Any)) Bool " + or(ds...) + ")\n" +
+		"(define-fun is_int_tag ((x Any)) Bool " + isInt + ")\n" +
+		"(define-fun is_wf_any ((x Any)) Bool (and (<= 0 (a.tag x)) (=> (= (a.tag x) 0) (= x nil_any)) (=> (is_ptr_tag x) (< 0 (a.i x))) " + and(rs...) + "))\n"
 }
